@@ -61,11 +61,16 @@ def block_text(rn, blk):
     return "\n".join(out) + "\n"
 
 
-def link_text(blocks, par=("1", "0.35", "4000"), atom="BB"):
+def link_text(blocks, par=("1", "0.35", "4000"), atom="BB", rep=None):
+    """one link for every pair of consecutive residues; rep: attributes the link replaces on the first residue's atom (ApplyLinks runs
+    before ApplyModifications: a modification must win over it)"""
     names = sorted(rn for rn, b in blocks.items() if any(a["an"] == atom for a in b["atoms"]))
     if not names:
         return ""
-    return "\n".join(["[ link ]", 'resname "%s"' % "|".join(names), "[ bonds ]", "%s +%s %s" % (atom, atom, " ".join(par))]) + "\n"
+    out = ["[ link ]", 'resname "%s"' % "|".join(names)]
+    if rep:
+        out += ["[ atoms ]", '%s {"replace": %s}' % (atom, json.dumps({KEYMAP[k]: _jval(k, v) for k, v in rep.items()}))]
+    return "\n".join(out + ["[ bonds ]", "%s +%s %s" % (atom, atom, " ".join(par))]) + "\n"
 
 
 # the blocks of the exhaustive instance (spec/ModsMC.tla BlockOf)
@@ -77,7 +82,7 @@ MC_BLOCKS = {
 }
 
 
-def write_ff(wd, blocks, lib, tag="x", split=True):
+def write_ff(wd, blocks, lib, tag="x", split=True, linkrep=None):
     """blocks + link in one file, modifications in a second one (empty library: no second file). Returns the paths."""
     wd = Path(wd)
     wd.mkdir(parents=True, exist_ok=True)
@@ -85,7 +90,7 @@ def write_ff(wd, blocks, lib, tag="x", split=True):
     rep_names = {kv["v"] for md in lib for a in md["atoms"] for kv in a["rep"] if kv["k"] == "an"}
     ptm = {a["an"] for md in lib for a in md["atoms"]} - block_names - rep_names
     p1 = wd / ("%s_blocks.ff" % tag)
-    body = "[ citations ]\nvermouth\n\n" + "\n".join(block_text(rn, b) for rn, b in blocks.items()) + "\n" + link_text(blocks)
+    body = "[ citations ]\nvermouth\n\n" + "\n".join(block_text(rn, b) for rn, b in blocks.items()) + "\n" + link_text(blocks, rep=linkrep)
     mods = "\n".join(mod_text(md, ptm) for md in lib)
     if not split:
         p1.write_text(body + "\n" + mods)
@@ -497,6 +502,14 @@ def run_gen_params(paths, inp, lay, wd, mods, lib=None, sentinel=None, seq=None)
         res["exc"] = describe_exc(e)
     finally:
         sys.argv = argv
+        # a failed command is a process that ended: what it left in the deferred writer (a singleton) must not reach the next case
+        from vermouth.file_writer import DeferredFileWriter
+        for tmp_path, _final, _mode in list(DeferredFileWriter().open_files):
+            try:
+                os.unlink(tmp_path)
+            except OSError:
+                pass
+        DeferredFileWriter().open_files.clear()
     res["files"] = sorted(f.name for f in wd.iterdir() if "out.itp" in f.name)
     if out.exists():
         txt = out.read_text()
@@ -578,9 +591,22 @@ def skey(xs):
     return sorted(json.dumps(strip_x(x), sort_keys=True) for x in xs)
 
 
+def as_read(x):
+    """an interaction as the small .itp reader sees its written line: the first NATOMS[section] tokens are atoms (a truncated
+    interaction of the open finding mod-interaction-truncated is therefore read with a parameter as its last atom)"""
+    k = NATOMS.get(x["sec"])
+    tok = [str(a) for a in x["at"]] + [str(p) for p in x["par"]]
+    if k is None or len(x["at"]) == k:
+        return {"sec": x["sec"], "at": list(x["at"]), "par": list(x["par"])}
+    try:
+        return {"sec": x["sec"], "at": [int(t) for t in tok[:k]], "par": tok[k:]}
+    except ValueError:
+        return {"sec": x["sec"], "at": list(x["at"]), "par": list(x["par"])}
+
+
 def bag(inters):
     from .ffmap_util import canon_inter
-    return sorted(canon_inter({"sec": x["sec"], "at": x["at"], "par": x["par"]}, with_ver=False, itp=True) for x in inters)
+    return sorted(canon_inter(as_read(x), with_ver=False, itp=True) for x in inters)
 
 
 def itp_atoms(itp):
@@ -593,12 +619,18 @@ def expected_itp_atoms(inp, atoms):
 
 # =========================================================================== bounded parallel TLC
 
+LIGHT_JVM = "-Xss64m -XX:ParallelGCThreads=1 -XX:TieredStopAtLevel=1 -XX:CICompilerCount=1"
+
+
 def tlc_group(jobs, par=5):
-    """run TLC jobs at most `par` at a time (single worker each); MachineryError of a job is re-raised at the end"""
+    """run TLC jobs at most `par` at a time (single worker each); MachineryError of a job is re-raised at the end.
+    light=True in a job's options: JVM settings for runs of a few seconds (one GC thread, C1 compiler only) - a third of the CPU time"""
     def one(job):
         module, cfg, kw = job
         kw = dict(kw)
         kw.setdefault("workers", 1)
+        if kw.pop("light", False):
+            kw["env"] = dict(kw.get("env") or {}, JAVA_TOOL_OPTIONS=LIGHT_JVM)
         try:
             return c.tlc(module, cfg, **kw)
         except c.MachineryError as exc:
